@@ -152,6 +152,8 @@ PROPERTIES = {
     "C05": {
         "modules": ["harness.c05"],
         "smt": ["engine/smt_rlp.py"],
+        "technique": "bounded symbolic execution of the real Python code (CrossHair) with z3 deciding every path, plus a direct AST-to-z3 "
+                     "bit-vector translation of the RLP length kernel (regenerated from the source on every run); counterexamples replayed concretely",
         "explanation": "Chunking of a header (any request sizes, early/late termination) is decided by harness.c01.chunk_policy "
                        "(partitions with expect_full_data=False) and chunk_long, which run the same _send_data_in_chunks.",
         "assumptions": COMMON_ASSUMPTIONS + [
